@@ -1,0 +1,110 @@
+//go:build verif
+
+// Contracts for the deductive verifier in /verif (govc): reuse of builder
+// buffers across shards (C10). Comment-only file, compiled only with -tags verif.
+
+package index
+
+// ---------------------------------------------------------------------------
+// C10: a recycled postingsBuilder is indistinguishable from a fresh one
+// ---------------------------------------------------------------------------
+
+// Representation invariant the reset relies on (maintained by
+// newSearchableString): every ASCII slot that holds data (or a last offset) is listed in
+// asciiPopulated, and every listed slot exists.
+//@ pure func okAsciiListed(s *postingsBuilder) bool = forall k int :: 0 <= k && k < len(s.asciiPopulated) ==> s.asciiPopulated[k] < 2097152 && s.asciiPostings[s.asciiPopulated[k]] != nil
+//@ pure func okAsciiCovered(s *postingsBuilder) bool = forall x int :: 0 <= x && x < 2097152 && s.asciiPostings[x] != nil && (len(s.asciiPostings[x].data) > 0 || s.asciiPostings[x].lastOff != 0) ==> (exists k int :: 0 <= k && k < len(s.asciiPopulated) && s.asciiPopulated[k] == x)
+//@ pure func okMapVals(s *postingsBuilder) bool = forall g ngram :: {mapval(s.postings, g)} has(s.postings, g) ==> s.postings[g] != nil
+
+// After reset: no posting list reachable from the builder holds data or a
+// last offset, every buffer is empty and every scalar has its initial value
+// (the scalar part is generated from the struct type on every run, so a field
+// added later without a line in reset fails).
+//@ func index.(*postingsBuilder).reset
+//@   requires s != nil && okAsciiListed(s) && okAsciiCovered(s) && okMapVals(s)
+//@   loop 1:
+//@     invariant okAsciiListed(s) && s.asciiPopulated == old(s.asciiPopulated)
+//@     invariant forall k int :: 0 <= k && k <= $i ==> len(s.asciiPostings[s.asciiPopulated[k]].data) == 0 && s.asciiPostings[s.asciiPopulated[k]].lastOff == 0
+//@     invariant forall x int :: 0 <= x && x < 2097152 ==> s.asciiPostings[x] == old(s.asciiPostings[x])
+//@     invariant forall x int :: 0 <= x && x < 2097152 && s.asciiPostings[x] != nil && (len(s.asciiPostings[x].data) > 0 || s.asciiPostings[x].lastOff != 0) ==> (exists k int :: $i < k && k < len(s.asciiPopulated) && s.asciiPopulated[k] == x)
+//@     decreases len(s.asciiPopulated) - $i
+//@   loop 2:
+//@     invariant len(s.asciiPopulated) == 0 && okMapVals(s)
+//@     invariant forall x int :: 0 <= x && x < 2097152 && s.asciiPostings[x] != nil ==> len(s.asciiPostings[x].data) == 0 && s.asciiPostings[x].lastOff == 0
+//@     invariant forall g ngram :: {mapval(s.postings, g)} visited(g) && has(s.postings, g) ==> len(s.postings[g].data) == 0 && s.postings[g].lastOff == 0
+//@   ensures forall x int :: 0 <= x && x < 2097152 && s.asciiPostings[x] != nil ==> len(s.asciiPostings[x].data) == 0 && s.asciiPostings[x].lastOff == 0
+//@   ensures forall g ngram :: {mapval(s.postings, g)} has(s.postings, g) ==> len(s.postings[g].data) == 0 && s.postings[g].lastOff == 0
+//@   ensures len(s.asciiPopulated) == 0 && len(s.runeOffsets) == 0 && len(s.endRunes) == 0 && s.isPlainASCII
+//@   foreach_field postingsBuilder ensures s.$f == 0
+
+
+// ---------------------------------------------------------------------------
+// C10: ordering documents inside a shard drops and duplicates nothing
+// ---------------------------------------------------------------------------
+
+// rank computes a score vector from the document (assumed: reads only).
+//@ func index.rank
+//@   trusted
+//@   assigns nothing
+
+// sortPerm: the permutation applied by the one sort.Slice call of the function
+// under verification (abstract; the sort's contract says it is a permutation).
+//@ abstract func sortPerm(k int) int
+
+// sort.Slice on the ranked documents (assumed): the slice afterwards is a
+// permutation of the slice before - sortPerm maps each new position to a
+// distinct old position. (That it is ordered by the comparator is not needed
+// for "no document dropped or duplicated".)
+//@ func sort.Slice
+//@   trusted
+//@   requires typeis(x, "[]rankedDoc")
+//@   ensures forall k int :: {as(x, "[]rankedDoc")[k]} 0 <= k && k < len(as(x, "[]rankedDoc")) ==> 0 <= sortPerm(k) && sortPerm(k) < len(as(x, "[]rankedDoc")) && as(x, "[]rankedDoc")[k].Document == old(as(x, "[]rankedDoc")[sortPerm(now(k))].Document)
+//@   ensures forall a, b int :: {sortPerm(a), sortPerm(b)} 0 <= a && a < b && b < len(as(x, "[]rankedDoc")) ==> sortPerm(a) != sortPerm(b)
+//@   assigns as(x, "[]rankedDoc")[*]
+
+// sortDocuments rearranges todo in place: position k afterwards holds the
+// document that was at position sortPerm(k), and sortPerm is injective on the
+// index range - a permutation: nothing dropped, nothing duplicated.
+//@ func index.sortDocuments
+//@   let T = todo
+//@   loop 1:
+//@     invariant rs != nil
+//@     invariant fresh(rs)
+//@     invariant len(rs) == $i + 1
+//@     invariant cap(rs) >= len(todo)
+//@     invariant forall k int :: 0 <= k && k <= $i ==> rs[k].Document == todo[k]
+//@     invariant forall k int :: 0 <= k && k < len(todo) ==> todo[k] == old(todo[k])
+//@     decreases len(todo) - $i
+//@   loop 2:
+//@     invariant len(rs) == len(todo) && fresh(rs)
+//@     invariant forall k int :: 0 <= k && k < len(rs) ==> 0 <= sortPerm(k) && sortPerm(k) < len(rs) && rs[k].Document == old(todo[sortPerm(now(k))])
+//@     invariant forall k int :: 0 <= k && k <= $i ==> todo[k] == rs[k].Document
+//@     decreases len(todo) - $i
+//@   ensures forall k int :: 0 <= k && k < len(todo) ==> 0 <= sortPerm(k) && sortPerm(k) < len(todo) && todo[k] == old(todo[sortPerm(now(k))])
+//@   ensures forall a, b int :: {sortPerm(a), sortPerm(b)} 0 <= a && a < b && b < len(todo) ==> sortPerm(a) != sortPerm(b)
+
+// ---------------------------------------------------------------------------
+// C10: a builder handed out for a new shard is empty, pooled or not
+// ---------------------------------------------------------------------------
+
+//@ pure func emptyPB(s *postingsBuilder) bool = (forall x int :: 0 <= x && x < 2097152 && s.asciiPostings[x] != nil ==> len(s.asciiPostings[x].data) == 0 && s.asciiPostings[x].lastOff == 0) && (forall g ngram :: {mapval(s.postings, g)} has(s.postings, g) ==> len(s.postings[g].data) == 0 && s.postings[g].lastOff == 0) && len(s.asciiPopulated) == 0 && len(s.runeOffsets) == 0 && len(s.endRunes) == 0 && s.isPlainASCII && s.runeCount == 0 && s.endByte == 0
+
+//@ func index.(*postingsBuilder).reset#empty
+//@   extends index.(*postingsBuilder).reset
+//@   ensures emptyPB(s)
+
+//@ func index.newPostingsBuilder
+//@   requires shardMaxBytes <= 1099511627776
+//@   ensures result != nil && emptyPB(result)
+
+// What the pool hands back (assumed): nothing, or a builder that was filled
+// through newSearchableString and therefore satisfies the representation
+// invariant reset relies on.
+//@ func sync.(*Pool).Get
+//@   trusted
+//@   ensures typeis(result, "*postingsBuilder") ==> as(result, "*postingsBuilder") != nil && okAsciiListed(as(result, "*postingsBuilder")) && okAsciiCovered(as(result, "*postingsBuilder")) && okMapVals(as(result, "*postingsBuilder"))
+//@   assigns nothing
+
+//@ func index.(*Builder).getPostingsBuilder
+//@   requires b != nil && b.opts.ShardMax <= 1099511627776
+//@   ensures result != nil && emptyPB(result)
